@@ -20,12 +20,45 @@ type EditRef struct {
 }
 
 type Case struct {
-	Dialect string     `json:"dialect"`
-	Base    gm.Schema  `json:"base"`
-	Edits   []EditRef  `json:"edits"`
-	Perm    int64      `json:"perm"`  // != 0: permute declaration order of the second graph (seed)
-	Level   string     `json:"level"` // schema | realm | table
-	Twins   []Twin     `json:"twins,omitempty"`
+	Dialect string    `json:"dialect"`
+	Base    gm.Schema `json:"base"`
+	Edits   []EditRef `json:"edits"`
+	Perm    int64     `json:"perm"`  // != 0: permute declaration order of the second graph (seed)
+	Level   string    `json:"level"` // schema | realm | table
+	Twins   []Twin    `json:"twins,omitempty"`
+	// Short (MySQL): the desired graph writes column character sets the short way although the current graph carries both
+	// attributes: 1 = COLLATE only (the collation determines the charset), 2 = CHARSET only where the collation is the
+	// charset's default, 3 = alternating. The differ resolves the missing half, so no change may be reported for it.
+	Short int `json:"short,omitempty"`
+}
+
+// DefaultCollation of the character sets used by the base (MySQL 8 defaults, as in the driver's embedded tables).
+var DefaultCollation = map[string]string{"latin1": "latin1_swedish_ci", "utf8mb4": "utf8mb4_0900_ai_ci"}
+
+// Shorthand rewrites the column character-set attributes of a model the short way (see Case.Short).
+func Shorthand(m *gm.Schema, mode int) (n int) {
+	if mode == 0 {
+		return 0
+	}
+	k := 0
+	for ti := range m.Tables {
+		for ci := range m.Tables[ti].Cols {
+			c := &m.Tables[ti].Cols[ci]
+			if c.Charset == "" || c.Collation == "" {
+				continue
+			}
+			k++
+			switch {
+			case mode == 1 || mode == 3 && k%2 == 1:
+				c.Charset = ""
+				n++
+			case DefaultCollation[c.Charset] == c.Collation:
+				c.Collation = ""
+				n++
+			}
+		}
+	}
+	return n
 }
 
 // Describe flattens a change list into descriptors.
@@ -44,6 +77,15 @@ func Describe(prefix string, cs []schema.Change) []string {
 			out = append(out, Describe(c.T.Name+":", c.Changes)...)
 		case *schema.ModifySchema:
 			out = append(out, Describe("schema:", c.Changes)...)
+		case *schema.AddView:
+			out = append(out, "AddView("+c.V.Name+")")
+		case *schema.DropView:
+			out = append(out, "DropView("+c.V.Name+")")
+		case *schema.ModifyView:
+			if len(c.Changes) == 0 {
+				out = append(out, "ModifyView("+c.To.Name+"){}")
+			}
+			out = append(out, Describe("view "+c.To.Name+":", c.Changes)...)
 		case *schema.AddColumn:
 			out = append(out, prefix+"AddColumn("+c.C.Name+")")
 		case *schema.DropColumn:
@@ -229,6 +271,18 @@ func Apply(dialect string, m *gm.Schema, e EditRef) ([]string, error) {
 		}
 		c.Comment = e.Arg
 		return []string{p + "ModifyColumn(" + e.Obj + ",comment)"}, nil
+	case "modify-charset", "modify-collate":
+		c, err := col()
+		if err != nil {
+			return nil, err
+		}
+		if e.Kind == "modify-collate" {
+			c.Collation = e.Arg
+			return []string{p + "ModifyColumn(" + e.Obj + ",collate)"}, nil
+		}
+		cc := strings.SplitN(e.Arg, "/", 2)
+		c.Charset, c.Collation = cc[0], cc[1]
+		return []string{p + "ModifyColumn(" + e.Obj + ",charset+collate)"}, nil
 	case "modify-generated":
 		c, err := col()
 		if err != nil {
@@ -360,6 +414,13 @@ func Apply(dialect string, m *gm.Schema, e EditRef) ([]string, error) {
 			return []string{p + "ModifyAttr(Comment)"}, nil
 		}
 		return []string{p + "AddAttr(Comment)"}, nil
+	case "table-charset":
+		cc := strings.SplitN(e.Arg, "/", 2)
+		t.Charset, t.Collation = cc[0], cc[1]
+		return []string{p + "ModifyAttr(Charset)", p + "ModifyAttr(Collation)"}, nil
+	case "table-collate":
+		t.Collation = e.Arg
+		return []string{p + "ModifyAttr(Collation)"}, nil
 	case "table-engine":
 		t.Engine = e.Arg
 		return []string{p + "ModifyAttr(Engine)"}, nil
@@ -452,6 +513,9 @@ func checkCase(c Case) (Outcome, error) {
 		out.Expected = append(out.Expected, d...)
 	}
 	out.Expected = MergeModify(out.Expected)
+	if c.Dialect == "mysql" {
+		Shorthand(&edited, c.Short)
+	}
 	base := c.Base
 	if len(c.Twins) > 0 {
 		base = c.Base.Clone()
